@@ -14,9 +14,10 @@ from . import core
 # ---------------------------------------------------------------- configurations
 
 
-def add(total=1, sync=False, rm=False, nopop=False, after=0, fail=0, sd=None, prio=None, failkind="fill"):
+def add(total=1, sync=False, rm=False, nopop=False, after=0, fail=0, sd=None, prio=None, failkind="fill", ln=None):
+    """sd: synchronised decorators, ln: decorators that listen for the bar's shutdown; both as (side, index) pairs"""
     return {"op": "add", "total": total, "sync": sync, "rm": rm, "nopop": nopop, "after": after, "fail": fail, "sd": sd, "prio": prio,
-            "failkind": failkind}
+            "failkind": failkind, "ln": ln or []}
 
 
 def incr(b, n=1):
@@ -52,6 +53,7 @@ CONFIGS = {
     "q0":     (1, 0, False, [[add(1), incr(1), call("wait")]], 3),
     "prio":   (2, 2, False, [[add(2), add(2), prio(1, 5), incr(1, 2), incr(2, 2), call("wait")]], 3),
     "priolazy": (2, 2, False, [[add(2), add(2), incr(1, 2), incr(2, 2), call("wait")], [prio(1, 5, True)]], 3),
+    "priolazyimm": (2, 2, False, [[add(2), add(2), incr(1, 2), incr(2, 2), call("wait")], [prio(1, 7, True), prio(1, -1)]], 3),   # a lazy change overtaken by an immediate one
     "prio3":  (3, 3, False, [[add(1), add(1), add(1), incr(1), incr(2), incr(3), call("wait")], [prio(1, 7, True), prio(3, 0)]], 2),
     "manual": (2, 2, False, [[add(1), add(2), call("refresh"), incr(1), call("refresh"), incr(2, 2), call("refresh"), call("wait")], [call("refresh"), call("refresh")]], 0, "manual"),
     "none":   (2, 2, False, [[add(1), add(2), incr(1), incr(2, 2), call("wait")], [abort(2, False), call("write")]], 0, "none"),
@@ -67,6 +69,9 @@ CONFIGS = {
     "three":  (3, 3, False, [[add(1, True), add(1, True), add(1), incr(1), incr(2), incr(3), call("wait")]], 2),
     # SetPriority on a bar that has left the heap (remove-on-complete): the stale heap index must be ignored
     "priorm": (2, 2, False, [[add(1, rm=True), add(2), incr(1), {"op": "barwait", "b": 1}, prio(1, 5), incr(2, 2), call("wait")]], 4),
+    # shutdown listeners: Wait must not return while one of them is still inside OnShutdown
+    "listen": (2, 2, False, [[add(1, ln=[("p", 0)]), add(1, ln=[("p", 0), ("a", 0)]), incr(1), incr(2), call("wait")]], 3),
+    "listenshut": (2, 2, False, [[add(2, ln=[("a", 0)]), add(1, sd=[("p", 0)], ln=[("p", 0)]), incr(2), call("shutdown")], [incr(1), call("wait")]], 3),
     "priopop": (2, 2, True, [[add(1), add(2), incr(1), call("wait")], [{"op": "barwait", "b": 1}, prio(1, -3), prio(2, 4), incr(2, 2)]], 4),
 }
 
@@ -76,7 +81,7 @@ def tla_op(o):
     if sd is None:
         sd = [("p", 0)] if o.get("sync") else []
     f = {"op": o["op"], "b": o.get("b", 0), "n": o.get("n", 0), "drop": o.get("drop", False), "total": o.get("total", 0),
-         "rm": o.get("rm", False), "nopop": o.get("nopop", False), "sd": [tuple(x) for x in sd], "after": o.get("after", 0),
+         "rm": o.get("rm", False), "nopop": o.get("nopop", False), "sd": [tuple(x) for x in sd], "ln": [tuple(x) for x in (o.get("ln") or [])], "after": o.get("after", 0),
          "hasprio": o.get("prio") is not None, "prio": o.get("prio") or 0}
 
     def v(x):
@@ -92,7 +97,7 @@ def tla_op(o):
     return "[" + ", ".join("%s |-> %s" % (k, v(x)) for k, x in f.items()) + "]"
 
 
-def write_model(wd, name, extra_cfg="", spec="Spec", invariants="NoPanic NoHang NoDupInFrame TextAtMostOnce TextWritten Quiescent ErrorReportedOnce NoRenderAfterError SortedFrames", sim=False, cfg=None):
+def write_model(wd, name, extra_cfg="", spec="Spec", invariants="NoPanic NoHang NoDupInFrame TextAtMostOnce TextWritten Quiescent ErrorReportedOnce NoRenderAfterError SortedFrames ListenersBeforeWait", sim=False, cfg=None):
     cfg = cfg or CONFIGS[name]
     nb, q, pop, progs, ticks = cfg[:5]
     refresh = cfg[5] if len(cfg) > 5 else "auto"
@@ -138,11 +143,13 @@ def scenario(name, sid, steps=None, mode="replay", seed=1, stats=True):
                 sd = o.get("sd")
                 if sd is None:
                     sd = [("p", 0)] if o.get("sync") else []
+                ln = o.get("ln") or []
                 for side, key in (("p", "pre"), ("a", "app")):
                     idxs = [i for (sd_side, i) in sd if sd_side == side]
-                    if idxs:
-                        h[key] = [{"sync": k in idxs, "w": 0, "space": False, "right": False, "needs": [1, 2], "listen": False,
-                                   "ewma": False, "wrap": []} for k in range(max(idxs) + 1)]
+                    lidx = [i for (ln_side, i) in ln if ln_side == side]
+                    if idxs or lidx:
+                        h[key] = [{"sync": k in idxs, "w": 0, "space": False, "right": False, "needs": [1, 2], "listen": k in lidx,
+                                   "ewma": False, "wrap": []} for k in range(max(idxs + lidx) + 1)]
                 if o.get("prio") is not None:
                     h["prio"] = o["prio"]
                 if o.get("rm"):
@@ -207,19 +214,23 @@ def scenario_to_config(sc):
             op = o["op"]
             b = names.get(o.get("b"), 0)
             if op == "add":
-                sd = []
+                sd, ln = [], []
                 for side, key in (("p", "pre"), ("a", "app")):
                     for i, d in enumerate(o.get(key) or []):
                         if d.get("sync"):
                             sd.append((side, i))
+                        if d.get("listen") and not d.get("avg"):
+                            ln.append((side, i))
                 fail, failkind = 0, "fill"
                 if o.get("fault"):
                     if o["fault"]["kind"] not in ("fill", "ext") or fault_seen or outfault:
                         return None
                     fault_seen = True
+                    if o["fault"]["at"] < 0:
+                        return None   # "the first Fill after closing": not in the specification's vocabulary
                     fail, failkind = o["fault"]["at"], o["fault"]["kind"]
                 q.append(add(o.get("total", 0), rm=o.get("rm", False), nopop=o.get("nopop", False), after=names.get(o.get("after"), 0),
-                             fail=fail, sd=sd, prio=o.get("prio"), failkind=failkind))
+                             fail=fail, sd=sd, prio=o.get("prio"), failkind=failkind, ln=ln))
             elif op in ("incr", "ewma"):
                 q.append({"op": "incr", "b": b, "n": o.get("n", 0)})
             elif op in ("setcur", "refill"):
@@ -237,6 +248,8 @@ def scenario_to_config(sc):
             elif op in ("getcur", "getcomp", "getab"):
                 q.append({"op": "get1", "b": b})
             elif op in ("write", "wait", "shutdown", "cancel", "refresh"):
+                if o.get("chunks"):
+                    return None   # two Write calls behind one client gate: not in the specification's vocabulary
                 q.append({"op": op})
             elif op == "delayend":
                 q.append({"op": "nop"})     # the render delay only swaps the writer: no gate is involved
@@ -254,7 +267,7 @@ def to_harness(lab):
     """MPBCore label -> harness gate label."""
     if lab == "tick":
         return "tick"
-    m = re.match(r"^(fmt:send|dist:start|dist:mid):(\d+)([pa]\d+)$", lab)
+    m = re.match(r"^(fmt:send|dist:start|dist:mid|us:listen):(\d+)([pa]\d+)$", lab)
     if m:
         return "%s:b%s%s" % (m.group(1), m.group(2), m.group(3))
     m = re.match(r"^(.*?):(\d+)$", lab)
